@@ -34,7 +34,8 @@ static int ref_v4(const unsigned char *s, unsigned n, int strict)
     return 1;
 }
 
-static int ref_v6(const unsigned char *s, unsigned n, int strict)
+/* recursive-descent formulation (used to cross-check the single-pass one below) */
+static int ref_v6_rd(const unsigned char *s, unsigned n, int strict)
 {
     unsigned i = 0, groups = 0, dc = 0, v4 = 0;
     if (n >= 2 && s[0] == ':' && s[1] == ':') { dc = 1; i = 2; }
@@ -64,6 +65,64 @@ static int ref_v6(const unsigned char *s, unsigned n, int strict)
         return dc ? total <= 7 : total == 8;
     }
     if (v4) return dc ? groups <= 4 : groups == 6;
+    return dc ? groups <= 6 : groups == 8;
+}
+
+/* single-pass formulation of the same language (linear formula size, for the long structured family) */
+static int ref_v6(const unsigned char *s, unsigned n, int strict)
+{
+    unsigned i, glen = 0, gdec = 1, gval = 0, groups = 0, dc = 0;
+    unsigned in_v4 = 0, done = 0, digits = 0, val = 0, first = 0;
+    if (n == 0) return 0;
+    for (i = 0; i < n; i++) {
+        unsigned c = s[i];
+        if (in_v4) {
+            if (ref_isdigit(c)) {
+                digits++;
+                val = val * 10 + (c - '0');
+                if (val > 255) return 0;
+                if (strict && digits > 3) return 0;
+            } else if (c == '.') {
+                if (digits == 0) return 0;
+                done++; digits = 0; val = 0;
+            } else
+                return 0;
+        } else if (ref_ishex(c)) {
+            glen++;
+            if (!ref_isdigit(c)) gdec = 0;
+            else if (gval <= 255) gval = gval * 10 + (c - '0');
+        } else if (c == ':') {
+            if (i > 0 && s[i - 1] == ':') {            /* second colon of "::" */
+                if (dc) return 0;
+                if (i >= 2 && s[i - 2] == ':') return 0;
+                dc = 1;
+            } else if (i == 0) {
+                if (!(n >= 2 && s[1] == ':')) return 0;   /* a leading colon must start "::" */
+            } else {
+                if (glen < 1 || glen > 4) return 0;     /* closes a group */
+                groups++; glen = 0; gdec = 1; gval = 0;
+            }
+        } else if (c == '.') {
+            if (glen == 0 || !gdec || gval > 255) return 0;
+            if (strict && glen > 3) return 0;
+            first = gval; in_v4 = 1; done = 1; digits = 0; val = 0;
+        } else
+            return 0;
+    }
+    if (in_v4) {
+        if (digits == 0 || done != 3) return 0;
+        if (strict && first == 0) return 0;
+    } else if (s[n - 1] == ':') {
+        if (!(n >= 2 && s[n - 2] == ':')) return 0;       /* single trailing colon */
+    } else {
+        if (glen < 1 || glen > 4) return 0;
+        groups++;
+    }
+    if (!strict) {
+        unsigned total = groups + (in_v4 ? 2 : 0);
+        return dc ? total <= 7 : total == 8;
+    }
+    if (in_v4) return dc ? groups <= 4 : groups == 6;
     return dc ? groups <= 6 : groups == 8;
 }
 #endif
